@@ -111,7 +111,7 @@ class Check:
             for i, c in enumerate(allc):
                 f.write("%d\t%s\n" % (i, c))
         impl_out, orc_out, model_out = [os.path.join(self.work, n + "_" + area) for n in ("impl.out", "oracle.out", "model.out")]
-        rc, out = core.sh([hb, "run", cases, impl_out, orc_out], timeout=3000)
+        rc, out = core.sh([hb, "run", cases, impl_out, orc_out], timeout=3000, mem_limit=24 << 30)
         if rc != 0:
             self.violations.append(("impl", "harness run crashed (rc=%d)" % rc,
                                     "theorem-or-correspondence: harness %s run\n%s" % (bins[0], out[-2000:]), False))
@@ -241,7 +241,7 @@ class Check:
                 rc, _ = core.sh([hb, "gen", gen_prop, self.tier, str(seed), cases])
                 if rc != 0:
                     continue
-                rc, _ = core.sh([hb, "run", cases, cases + ".impl", cases + ".orc"], timeout=3000)
+                rc, _ = core.sh([hb, "run", cases, cases + ".impl", cases + ".orc"], timeout=3000, mem_limit=24 << 30)
                 if rc != 0:
                     continue
                 self.cov["evaluations"] += sum(1 for _ in open(cases))
